@@ -201,6 +201,30 @@ func run(c *core.Ctx) {
 	if c.Thorough() {
 		c.SetExhaustive("all foldings x unit inserted/replaced at every position")
 	}
+	// the scheme at particular offsets: padding that a URL parser strips
+	bi := 0
+	for _, n := range gen.BoundaryLens() {
+		for _, pad := range []string{" ", "\t", "\n", "\x01", "\r", " \t"} {
+			bi++
+			if !c.Mine(bi) {
+				continue
+			}
+			p := gen.Pad(pad, n)
+			for _, m := range []int{0, 1023, 0x155} {
+				f := folding(m)
+				check(c, p+f+"alert(1)")
+				if pad != " " && pad != "\x01" {
+					check(c, f[:4]+p+f[4:]+"x") // inside the scheme (TAB/LF/CR are removed anywhere)
+					check(c, f[:10]+p+":x")
+				}
+				check(c, p+f[:10]+"&colon;x")
+				check(c, p+f[:10]+"&#58;x")
+			}
+			check(c, gen.Pad("a", n)+":x")
+			check(c, gen.Pad("a", n)+"/javascript:x")
+			check(c, "https:"+gen.Pad("/", n)+"javascript:x")
+		}
+	}
 	// two insertions for a few foldings
 	r2 := c.Rng("two")
 	for i := 0; i < c.N(100000, 2000000)/c.NShards; i++ {
